@@ -197,6 +197,10 @@ class C20(Spec):
                     live.remove(o)
                 else:
                     h.append("merge %d %d" % (s, o))
+                    if rng.random() < 0.6:
+                        # the source of a merge by reference is still a sketch of its own: look at it, query it
+                        h.append("dump %d" % o)
+                        h.append("q %d %s" % (o, self._point(rng, ty, dims[o], mode)))
             elif r < 0.935 and nxt < 6:
                 h.append("copy %d %d" % (s, nxt))
                 nb[nxt] = nb[s]
